@@ -12,7 +12,7 @@ SPEC = dict(
          "XEP-0078 fields/result) under 19 policies {SASL PLAIN|SCRAM + bind, STARTTLS first, SASL2+bind2 with inline SM, SASL2 + "
          "classic bind, legacy auth (pre-1.0 header / as stream feature), SM none|enabled|resumable, resumption accepted|refused, "
          "see-other-host early / after STARTTLS / inside an established session (second local listener), header + features pipelined in "
-         "ONE segment, <enabled resume location=…> naming a THIRD local listener}. (0) 30 incidents (incl. location then stream error+close / </stream:stream> / rejected element / cut / reset), each followed by a full conforming attempt that must connect: authentication failure "
+         "ONE segment, <enabled resume location=…> naming a THIRD local listener}. (0) 70 retry scenarios (a re-entrant application: `sendiq-retry` = a request whose failure continuation sends one more request, 1-2 outstanding at every way a session can end - cut, reset, stream error+close, </stream:stream>, rejected element, stream error then cut, second connectToServer - without SM, with SM not resumable / resumable / inline, over TLS; then a new session, an answer, an orderly end; script-side oracle: after an end that leaves nothing to resume NO request is pending, continuation-created ones included); 32 incidents (incl. location then stream error+close / </stream:stream> / rejected element / cut / reset), each followed by a full conforming attempt that must connect: authentication failure "
          "(plain / over TLS), bind error, <failure/> to starttls, failed TLS handshake (TLS required / optional), stream error + "
          "</stream:stream> in one segment (negotiation / session / resumable session), see-other-host + </stream:stream> in ONE segment "
          "(session, resumable session, over TLS, during negotiation - the client continues on the second listener), cut in the MIDDLE of an "
